@@ -99,6 +99,31 @@ def run(ctx):
             ll = f.ll_header.with_crc8(CRC8(f.ll_header.serialize()[2:6]).digest())
             lines.append("refdecode %s" % hx(ll.serialize() + f.hl_packet.serialize()))
         metas.append((label, whole, frags, start))
+    # one Frame object used for several messages in turn (both of its fields assigned anew, as `to_frame` sets them, the
+    # object asked about its fragmentation in between): each message must still go out as itself
+    from zigpy_zboss.frames import HLPacket
+    import zigpy_zboss.types as t
+    for j in range(ctx.scale(12, 60)):
+        sizes = [r.choice([100, 247, 248, 251, 300, 496, 500, 600, 741, 745, 1000, r.randrange(4, 1500)]) for _ in range(r.randrange(3, 7))]
+        reused = _packet(0x00020000, bytes(sizes[0] - 4))
+        for step, n in enumerate(sizes):
+            if step:
+                hl = HLPacket(t.HLCommonHeader(r.choice([0x00020000, 0x02810100])), t.Bytes(bytes(r.getrandbits(8) for _ in range(n - 4))))
+                if r.random() < 0.7:
+                    reused.fragmentation_needed, reused.count_fragments()
+                reused.hl_packet = hl
+                reused.ll_header = reused.ll_header.with_size(hl.length + 5)
+            frags = reused.handle_tx_fragmentation()
+            fresh = _packet(int(reused.hl_packet.header), bytes(reused.hl_packet.data)).handle_tx_fragmentation()
+            label = "reused-frame/%d/%s" % (j, "+".join(map(str, sizes[:step + 1])))
+            ctx.case(("reuse", j, step), sample=dict(case=label))
+            ctx.count("reused-frame-object")
+            check_fragments(ctx, reused, frags, label, None)
+            a1 = [(int(f.ll_header), f.hl_packet.serialize()) for f in frags]
+            a2 = [(int(f.ll_header), f.hl_packet.serialize()) for f in fresh]
+            if a1 != a2:
+                ctx.counterexample("reused-frame-differs", dict(case=label, body_len=n, sizes=sizes[:step + 1]), [len(x[1]) - 2 for x in a2], [len(x[1]) - 2 for x in a1],
+                                   "a Frame object given a new message fragments differently from a fresh frame with that message")
     ans = ctx.driver.ask(lines) if ctx.driver else None
     pos = 0
     for label, whole, frags, start in metas:
